@@ -34,7 +34,7 @@ func c05LeakJPEG(t *testing.T, side int) []byte {
 // c05LeakSettle waits for goroutines that are on their way out and returns the count.
 func c05LeakSettle(base int) int {
 	n := runtime.NumGoroutine()
-	for i := 0; i < 40 && n > base; i++ {
+	for i := 0; i < 2000 && n > base; i++ {
 		time.Sleep(5 * time.Millisecond)
 		n = runtime.NumGoroutine()
 	}
